@@ -57,6 +57,8 @@ type c13Op struct {
 	// operation naming it, as an SDK caller does that parses its overrides once.  Vals then
 	// repeats the original content of that map (what model and oracle compute with).
 	Share int `json:"share,omitempty"`
+	// RFail (c13_rfail.go): the n-th (0-based) read this operation makes on the release store returns an injected error, once
+	RFail *int `json:"rfail,omitempty"`
 }
 
 type c13Case struct {
@@ -112,6 +114,8 @@ type c13Step struct {
 	Stored    bool  `json:"stored,omitempty"`
 	// the status of every stored revision right after this step (index = revision - 1)
 	Statuses []string `json:"statuses,omitempty"`
+	// the injected read fault was met (c13_rfail.go)
+	RFailHit bool `json:"rfail_hit,omitempty"`
 }
 
 type c13Obs struct {
@@ -133,6 +137,9 @@ func (*c13) Rule() string {
 		"of subcharts (defaults of every level change, subcharts come and go, user sections for subcharts, scalars on subchart keys, globals); " +
 		"a quarter of the upgrades, 1/8 of the rollbacks and 1/15 of the installs FAIL after their record was created (injected wait error: the revision is stored as failed); rollbacks to the previous, an explicit earlier or a non-existent revision; " +
 		"a quarter of the chains hand ONE values map object (a shared overrides map with tables where the installed values have tables) to two or more of their operations, half of those chains over two releases; " +
+		"1/8 of the chains give one upgrade / rollback a storage READ fault (the n-th read of the operation on the release store returns an error, n < 3), preferably an upgrade whose " +
+		"predecessor failed (the newest revision is then not the deployed one and prepareUpgrade looks the deployed one up); the corpus has that shape for every flag mode x both read positions, " +
+		"and a rollback with each of its four reads failing; an operation refused before it stored anything is left out of the model's chain, one that failed after its record was created is the model's 'fails'; " +
 		"non-trivial = at least two revisions stored and at least one upgrade with a reuse flag or a rollback succeeded; distinct = hash of (case, observation)"
 }
 
@@ -183,6 +190,7 @@ func (*c13) Corpus() []any {
 	}})
 	out = append(out, c13SharedCorpus()...)
 	out = append(out, c13RollbackCorpus()...)
+	out = append(out, c13RFailCorpus()...)
 	return out
 }
 
@@ -462,6 +470,9 @@ func (*c13) Generate(r *rand.Rand, _ int) any {
 	if r.Intn(4) == 0 {
 		c13Shareify(r, &c, userVals(base))
 	}
+	if r.Intn(8) == 0 {
+		c13AddRFail(r, &c)
+	}
 	return c
 }
 
@@ -627,8 +638,9 @@ func (*c13) Execute(ci any) (res any) {
 			res = obs
 		}
 	}()
+	rdrv := &c13Drv{inner: driver.NewMemory(), at: -1} // read faults, off unless an operation asks for one
 	cfg := &action.Configuration{
-		Releases:     storage.Init(driver.NewMemory()),
+		Releases:     storage.Init(rdrv),
 		Capabilities: chartutil.DefaultCapabilities,
 	}
 	// the printing fake with a waiter that can be told to fail: the operation then fails after
@@ -668,6 +680,7 @@ func (*c13) Execute(ci any) (res any) {
 		}
 		before := vtCopyMap(vals) // deep snapshot of the caller's map right before the call
 		var err error
+		rdrv.arm(o.RFail)
 		switch o.Kind {
 		case "install":
 			in := action.NewInstall(cfg)
@@ -686,6 +699,8 @@ func (*c13) Execute(ci any) (res any) {
 			obs.Panic = "unknown op " + o.Kind
 			return obs
 		}
+		st.RFailHit = rdrv.hit
+		rdrv.arm(nil)
 		st.OK = err == nil
 		if err != nil {
 			st.Err = err.Error()
@@ -789,6 +804,7 @@ func (*c13) CoqCase(ci, oi any) string {
 	var rels []string
 	for k := 0; k < c.nrel(); k++ {
 		pops, psteps, _ := c13Project(c, obs, k)
+		pops, psteps = c13CoqView(pops, psteps) // read faults: what the fault-free value model is asked about
 		ops := make([]string, len(pops))
 		for i, o := range pops {
 			ops[i] = c13CoqOp(o)
